@@ -67,14 +67,22 @@ def run_mutant(prop, name, meta):
 
 
 def run_for_property(prop):
-    res = {"mutants": 0, "caught": 0, "failed": []}
-    for name, meta in _mutants_for(prop) + _seeded_for(prop):
-        res["mutants"] += 1
-        ok, detail = run_mutant(prop, name, meta)
-        if ok:
-            res["caught"] += 1
-        else:
-            res["failed"].append("%s: %s" % (name, detail))
+    import concurrent.futures
+    res = {"mutants": 0, "caught": 0, "failed": [], "must_fire": 0, "must_stay_silent": 0}
+    jobs = _mutants_for(prop) + _seeded_for(prop)
+    workers = max(1, min(int(os.environ.get("VERIF_SELFTEST_JOBS", "8")), os.cpu_count() or 1))
+    with concurrent.futures.ThreadPoolExecutor(workers) as ex:
+        futs = {ex.submit(run_mutant, prop, name, meta): (name, meta) for name, meta in jobs}
+        for fu in concurrent.futures.as_completed(futs):
+            name, meta = futs[fu]
+            res["mutants"] += 1
+            res["must_fire" if meta.get("expect", "violation") == "violation" else "must_stay_silent"] += 1
+            ok, detail = fu.result()
+            if ok:
+                res["caught"] += 1
+            else:
+                res["failed"].append("%s: %s" % (name, detail))
+    res["failed"].sort()
     return res
 
 
